@@ -1069,6 +1069,7 @@ def _parse_frame_specs(text, index, fields):
         if match:
             frame_id = match.group()
             end += len(frame_id)
+            x = y = 0
             if end < len(text) and text[end] == ',':
                 end, delay, x, y = parse_ints(text, end + 1, defaults=(delay, 0, 0), names=('delay', 'x', 'y'), fields=fields)
             frame_specs.append((frame_id, delay, x, y))
